@@ -117,6 +117,15 @@ WhitJudge(q) ==
    IN [input_ok |-> RootOk(q), subseq |-> subseq, cls |-> cls,
        bad |-> IF subseq THEN {<<k, Bad(k)>> : k \in {i \in Idx(q.n) : Bad(i) # ""}} ELSE {}]
 
+\* Representations in which the point isotherms handed to the Whittaker method are stored (the method works on a copy
+\* converted to absolute Pa; the closed form is the same whatever the stored representation; T is always in kelvin)
+WhitStorage == <<
+   [name |-> "Pa-K", pressure_mode |-> "absolute", pressure_unit |-> "Pa", temperature_unit |-> "K"],
+   [name |-> "bar-C", pressure_mode |-> "absolute", pressure_unit |-> "bar", temperature_unit |-> "°C"],
+   [name |-> "kPa-C", pressure_mode |-> "absolute", pressure_unit |-> "kPa", temperature_unit |-> "°C"],
+   [name |-> "relative-K", pressure_mode |-> "relative", pressure_unit |-> "none", temperature_unit |-> "K"],
+   [name |-> "relative%-C", pressure_mode |-> "relative%", pressure_unit |-> "none", temperature_unit |-> "°C"] >>
+
 ---------------------------------------------------------------------------
 \* Initial enthalpy point: rows = sequence of [b |-> 0 (adsorption) | 1 (desorption), h |-> enthalpy], branch requested
 Layouts == {<<na, nd>> : na \in 1..3, nd \in 0..3}
